@@ -1,4 +1,5 @@
 import Driver.Codec
+import Driver.Ops2
 open Lean Mammoth Mammoth.Codec
 
 partial def nodeCount : List Node → Nat
@@ -121,6 +122,11 @@ def handle (line : String) : Json :=
       | "stylemap" => handleStyleMap j
       | "api" => handleApi j
       | "convertdoc" => handleConvertDoc j
+      | "dom" => Ops2.handleDom j
+      | "transform" => Ops2.handleTransform j
+      | "embed" => Ops2.handleEmbed j
+      | "writeover" => Ops2.handleWriteOver j
+      | "cli" => Ops2.handleCli j
       | _ => throw ("unknown op " ++ op)
     match r with
     | .ok v => v
